@@ -14,6 +14,18 @@ COMMON_NOTE = (
 )
 TECH = "symbolic execution of the real Python on z3-backed proxy scalars (decision-tree re-execution), exact parametric-LP stub, SMT (QF_LRA) obligations per path, counterexamples replayed on the unshimmed code"
 CHECKS = {
+    "C02": {
+        "text": "Bounded symbolic execution of the real quotient_tactics (assumption relaxation with/without the divisor's guarantees, two guarantee refinements, refines test, deepcopy, constructor) for enumerated quotient wirings, additional_inputs subsets, options and coefficient patterns with symbolic constants; one QF_LRA query per returning path decides that divisor plus quotient meet the dividend. Both outcomes of the 'dividend assumptions refine divisor assumptions' test are reached and counted.",
+        "design_ref": "DESIGN.md section 8 C02",
+        "note": COMMON_NOTE,
+        "technique": TECH,
+    },
+    "C03": {
+        "text": "Symbolic execution of PolyhedralTermList.refines / verify_polytope_containment / is_polytope_empty and the contract-level refines, <=, contains_environment, contains_implementation with symbolic constants, right-hand constants optionally tied to left-hand ones (shared, scaled, summed) so that exactly-tight containment is a solver-explored region. Answer True must imply containment within tolerance; answer False must imply that exact containment fails, decided without quantifiers through the exact projection of the left polyhedron. Every path is replayed with dyadic witnesses on the real float code, where must-True is required (this is how the round-off defect was found).",
+        "design_ref": "DESIGN.md section 8 C03",
+        "note": COMMON_NOTE,
+        "technique": TECH,
+    },
     "C01": {
         "text": "Bounded symbolic execution of the real PolyhedralIoContract.compose_tactics (assumption refinement, three guarantee relaxations, simplify, constructor) for enumerated wirings/coefficient patterns/options with every constant symbolic; per returning path one QF_LRA query decides the assume-guarantee soundness obligation for all constants and all behaviours. Reaches the tie/degenerate-constant branches that decide which tactic fires, which a finite test sample cannot.",
         "design_ref": "DESIGN.md section 8 C01",
